@@ -125,6 +125,10 @@ def judge_sequence(chk, base, seq, res, n_base, ref_trace, replay, findings_avoi
                     if lines != {first}:
                         frames = [t[4] for t in ref_trace[max(0, executed - 1):executed + n + 1]]
                         key = 'line-step-long|scope-exit' if any(y < x for x, y in zip(frames, frames[1:])) else 'line-step-long'
+                        if len(lines) > 2:
+                            # the recorded finding reaches into the caller's line (or, started exactly at a scope end, over the
+                            # following line); a step that runs over more lines than that is something else
+                            key = 'line-step-runs-on'
                         if not (key == 'line-step-long|scope-exit' and chk.known('c19-line-step-runs-into-callers-line')):
                             return bad(key, 'line step from line %d executed instructions of lines %s' % (first, sorted(lines)), k)
                 if a == 'leave_scope' and n > 0 and executed + n < len(ref_trace):
@@ -287,6 +291,14 @@ def main(tier):
                 steps, n_base = steps_of(base, seq)
                 items.append(steps)
                 meta.append((base, seq, n_base))
+    # every halt position of the script (k assembly steps, k = 0 .. length of the reference trace) followed by each stepping
+    # action: halting exactly at the end of a scope is a position pure line stepping never reaches
+    for k in range(len(ref_trace) + 2):
+        for a_ in ('line_step', 'leave_scope'):
+            seq = tuple(['assembly_step'] * k + [a_, 'line_step', 'assembly_step', 'line_step'])
+            steps, n_base = steps_of('loaded', seq)
+            items.append(steps)
+            meta.append(('loaded', seq, n_base))
     # long random walks (the exhaustive part never gets past the first lines of the script)
     for i in range(300 if tier == 'quick' else 6000):
         rng = core.rng('c19a', i)
